@@ -100,14 +100,14 @@ deriving DecidableEq, Repr
 /-- The forwarder seen through the stream model: upload = the application's bytes handed to
 `FrameStream.Write` in pieces `ups` (as `io.Copy` reads them), then `CloseWrite` (half-close); the peer
 reads to end-of-stream, then writes `down` and `Close`s; the other direction is a second stream run.
-Reads use frame-sized buffers, one more than there can be frames. -/
+Reads use frame-sized buffers, one more than there can be frames (`frameBound`). -/
 def runForward (me : Bytes) (ups : List Bytes) (down : Bytes) : FwObs :=
-  let nu := ups.length + ups.flatten.length / crossnode.MaxFrameSize + 2
-  let nd := down.length / crossnode.MaxFrameSize + 3
-  let u := runStream none me (ups.map .write ++ [.closeWrite]) (fun b => [b]) .eof false
-    (List.replicate nu crossnode.MaxFrameSize)
-  let d := runStream none me [.write down, .close] (fun b => [b]) .eof false
-    (List.replicate nd crossnode.MaxFrameSize)
+  let uev := ups.map Ev.write ++ [.closeWrite]
+  let dev := [Ev.write down, .close]
+  let u := runStream none me uev (fun b => [b]) .eof false
+    (List.replicate (frameBound uev + 1) crossnode.MaxFrameSize)
+  let d := runStream none me dev (fun b => [b]) .eof false
+    (List.replicate (frameBound dev + 1) crossnode.MaxFrameSize)
   ⟨delivered u.reads, delivered d.reads, u.reads.contains .eof && d.reads.contains .eof⟩
 
 /-- **Forwarding on an observation**: everything the application sent before its half-close reached the
